@@ -34,11 +34,15 @@
 #include "src/mc/mc_config.hpp"
 #include "src/mc/remote/Channel.hpp"
 #include "src/mc/transition/Transition.hpp"
+#include "src/mc/explo/odpor/Execution.hpp"
 #include <sys/wait.h>
 #include <sys/mman.h>
 #include <sys/socket.h>
 #include <atomic>
 #include <unordered_map>
+#include <map>
+#include <set>
+#include <algorithm>
 #include <fstream>
 #include <sstream>
 #include <cstring>
@@ -405,6 +409,87 @@ static void explore_program(const Program& p, char* argv0)
   }
 }
 
+// ------------------------------------------------------------------------------------------------ complete executions (C40, C42)
+static mc::TransitionPtr transition_obj(kernel::actor::ActorImpl* a)
+{
+  if (dynamic_cast<kernel::actor::MessIputSimcall*>(a->simcall_.observer_) || dynamic_cast<kernel::actor::MessIgetSimcall*>(a->simcall_.observer_)) {
+    fprintf(stderr, "vx: message-queue transitions cannot be decoded (C43): not usable in this mode\n"); _exit(7); }
+  a->simcall_.observer_->serialize(*APP); a->get_memory_trace()->serialize(*APP); APP->send();
+  mc::TransitionPtr t = mc::deserialize_transition((unsigned)a->get_pid(), a->get_restart_count(), *CHK); t->deserialize_memory_tracker(*CHK);
+  return t;
+}
+struct ExecStats { long nexec = 0, hb_pairs = 0, hb_bad = 0, race_sets = 0, race_bad = 0, asym = 0; std::vector<std::string> notes; };
+// Foata normal form of a sequence under the checker's own dependency relation: two sequences are Mazurkiewicz-equivalent iff equal forms
+static std::string foata(const std::vector<mc::TransitionPtr>& ts, const Path& labels)
+{
+  size_t n = ts.size(); std::vector<int> level(n, 0); std::vector<int> idx_in_actor(n, 0); std::map<long, int> cnt;
+  for (size_t j = 0; j < n; j++) { idx_in_actor[j] = cnt[labels[j].first]++;
+    for (size_t i = 0; i < j; i++) if (ts[i]->dispatch_depends(ts[j].get())) level[j] = std::max(level[j], level[i] + 1); }
+  std::vector<std::string> ev(n);
+  for (size_t j = 0; j < n; j++) { char b[64]; snprintf(b, sizeof b, "%03d:%ld.%d/%d", level[j], labels[j].first, idx_in_actor[j], labels[j].second); ev[j] = b; }
+  std::sort(ev.begin(), ev.end()); std::string r; for (auto& e : ev) r += e + " "; return r;
+}
+static void check_execution(const std::vector<mc::TransitionPtr>& ts, const Path& labels, ExecStats& st)
+{
+  size_t n = ts.size(); if (n == 0) return;
+  std::vector<std::vector<char>> dep(n, std::vector<char>(n, 0)), hb(n, std::vector<char>(n, 0));
+  for (size_t i = 0; i < n; i++) for (size_t j = i + 1; j < n; j++) { bool d = ts[i]->dispatch_depends(ts[j].get()), d2 = ts[j]->dispatch_depends(ts[i].get());
+      if (d != d2) { st.asym++; if (st.notes.size() < 5) st.notes.push_back("asymmetric depends " + ts[i]->to_string(false) + " / " + ts[j]->to_string(false)); }
+      dep[i][j] = d; hb[i][j] = d; }
+  for (size_t j = 0; j < n; j++) for (size_t k = 0; k < j; k++) if (hb[k][j]) for (size_t i = 0; i < k; i++) if (hb[i][k]) hb[i][j] = 1; // closure (indices increase along chains)
+  // closure needs a fixpoint in general; chains i<k<j are covered by iterating j upward with all k<j already closed
+  mc::odpor::Execution E;
+  for (auto& t : ts) E.push_transition(t);
+  for (size_t i = 0; i < n; i++) for (size_t j = 0; j < n; j++) { st.hb_pairs++;
+      bool got = E.happens_before(i, j), exp = i < j && hb[i][j];
+      if (got != exp) { st.hb_bad++; if (st.notes.size() < 5) st.notes.push_back("happens_before(" + std::to_string(i) + "," + std::to_string(j) + ")=" + std::to_string(got) + " expected " + std::to_string(exp) + " in " + path_str(labels)); } }
+  for (size_t j = 0; j < n; j++) {
+    long aj = labels[j].first; long prev = -1; for (long q = (long)j - 1; q >= 0; q--) if (labels[q].first == aj) { prev = q; break; }
+    std::set<unsigned> exp;
+    for (size_t i = 0; i < j; i++) { if (labels[i].first == aj || !hb[i][j]) continue; bool mid = false; for (size_t k = i + 1; k < j; k++) if (hb[i][k] && hb[k][j]) mid = true;
+      if (mid) continue; if (prev >= 0 && (long)i < prev && hb[i][prev]) continue; exp.insert(i); }
+    auto gotl = E.get_racing_events_of(j); std::set<unsigned> got(gotl.begin(), gotl.end()); st.race_sets++;
+    if (got != exp) { st.race_bad++; if (st.notes.size() < 5) { std::string g, e; for (auto x : got) g += std::to_string(x) + ","; for (auto x : exp) e += std::to_string(x) + ",";
+        st.notes.push_back("racing_events_of(" + std::to_string(j) + ")={" + g + "} expected {" + e + "} in " + path_str(labels)); } }
+  }
+}
+// all complete executions of one program (no de-duplication), each handed to f(transitions, labels); returns false if maxexec was hit
+template <class F> static bool all_executions(const Program& p, char* argv0, long maxexec, F f)
+{
+  std::vector<Path> stack; stack.push_back({}); long nexec = 0;
+  while (!stack.empty()) {
+    if (nexec >= maxexec) return false;
+    Path prefix = stack.back(); stack.pop_back();
+    char logopt[] = "--log=root.thres:critical"; int ac = 2; char* av[] = {argv0, logopt, nullptr};
+    setup(p, &ac, av); quiesce(); nexec++;
+    Path cur; std::vector<mc::TransitionPtr> ts;
+    for (size_t step = 0;; step++) {
+      auto en = enabled_list();
+      if (en.empty() || assertion_failed) break;
+      std::vector<std::pair<kernel::actor::ActorImpl*, int>> ch;
+      for (auto& e : en) for (int k = 0; k < e.maxc; k++) ch.push_back({e.a, k});
+      size_t pick = 0;
+      if (step < prefix.size()) { pick = ch.size(); for (size_t i = 0; i < ch.size(); i++) if (ch[i].first->get_pid() == prefix[step].first && ch[i].second == prefix[step].second) pick = i;
+        if (pick == ch.size()) { fprintf(stderr, "vx: replay divergence in all_executions\n"); _exit(6); } }
+      else for (size_t i = ch.size(); i-- > 1;) { Path np = cur; np.push_back({ch[i].first->get_pid(), ch[i].second}); stack.push_back(np); }
+      cur.push_back({ch[pick].first->get_pid(), ch[pick].second}); strncpy(CURPATH, path_str(cur).c_str(), 4000);
+      handle(ch[pick].first, ch[pick].second); ts.push_back(transition_obj(ch[pick].first)); quiesce();
+    }
+    f(ts, cur);
+    teardown();
+  }
+  return true;
+}
+static void classes_program(const Program& p, char* argv0, long maxexec, FILE* fo)
+{
+  std::set<std::string> classes; ExecStats st; long maxlen = 0;
+  bool complete = all_executions(p, argv0, maxexec, [&](const std::vector<mc::TransitionPtr>& ts, const Path& labels) {
+    st.nexec++; maxlen = std::max<long>(maxlen, ts.size()); classes.insert(foata(ts, labels)); check_execution(ts, labels, st); });
+  fprintf(fo, "C %ld %zu %d %ld %ld %ld %ld %ld %ld %ld\n", st.nexec, classes.size(), complete ? 1 : 0, st.hb_pairs, st.hb_bad, st.race_sets, st.race_bad, st.asym, maxlen, 0L);
+  for (auto& n : st.notes) fprintf(fo, "N %s\n", n.c_str());
+  for (auto& c : classes) fprintf(fo, "K %zx\n", std::hash<std::string>{}(c));
+}
+
 extern "C" const char* simgrid_verif_fingerprint(void)
 { // H1 hook (AppSide) calls this through dlsym to log the application-level state under simgrid-mc
   static std::string s; s = canonical(); return s.c_str();
@@ -444,6 +529,28 @@ int main(int argc, char** argv)
     }
     fflush(stdout); _exit(0);
   }
+  if (mode == "fnf") { // vx fnf <file> <index> <schedules-file>: Foata normal form hash of each schedule (one per line)
+    CURPATH = (char*)mmap(nullptr, 8192, PROT_READ | PROT_WRITE, MAP_SHARED | MAP_ANONYMOUS, -1, 0);
+    std::ifstream in(argv[4]); std::string sched;
+    while (std::getline(in, sched)) {
+      char logopt[] = "--log=root.thres:critical"; int ac = 2; char* av[] = {argv[0], logopt, nullptr};
+      setup(progs.at(atoi(argv[3])), &ac, av); quiesce();
+      Path cur; std::vector<mc::TransitionPtr> ts; size_t pos = 0; bool ok = true;
+      while (pos < sched.size() && ok) {
+        size_t e = sched.find(';', pos); std::string tok = sched.substr(pos, e == std::string::npos ? std::string::npos : e - pos); pos = e == std::string::npos ? sched.size() : e + 1;
+        if (tok.empty()) continue;
+        long aid = atol(tok.c_str()); int k = tok.find('/') != std::string::npos ? atoi(tok.c_str() + tok.find('/') + 1) : 0;
+        auto en = enabled_list(); kernel::actor::ActorImpl* a = nullptr; for (auto& x : en) if (x.a->get_pid() == aid && k < x.maxc) a = x.a;
+        if (!a) { ok = false; break; }
+        cur.push_back({aid, k}); handle(a, k); ts.push_back(transition_obj(a)); quiesce();
+      }
+      bool terminal = enabled_list().empty();
+      printf("%s %zx %d %zu\n", ok ? "OK" : "NOT-ENABLED", std::hash<std::string>{}(foata(ts, cur)), terminal ? 1 : 0, ts.size()); fflush(stdout);
+      teardown();
+    }
+    _exit(0);
+  }
+  bool classes_mode = mode == "classes";
   // explore
   const char* out = argv[3];
   if (argc > 4) stateful = std::string(argv[4]) != "stateless";
@@ -464,6 +571,7 @@ int main(int argc, char** argv)
         fprintf(fo, "P %s\n", progs[i].id.c_str()); fflush(fo);
         if (deadline > 0 && (double)time(nullptr) > deadline) { fprintf(fo, "R 0 0 0 SKIP\n"); continue; }
         seen.clear(); n_states = n_trans = n_paths = n_exec = next_sid = 0; aborted = 0;
+        if (classes_mode) { classes_program(progs[i], argv[0], maxstates, fo); fprintf(fo, "R 0 0 0 OK 0\n"); fflush(fo); continue; }
         explore_program(progs[i], argv[0]);
         fprintf(fo, "R %ld %ld %ld %s %ld\n", n_paths, n_states, n_trans, aborted ? ("ABORT" + std::to_string(aborted)).c_str() : "OK", n_exec);
         fflush(fo);
